@@ -423,6 +423,12 @@ var c07BugOps = []c07Op{
 	{"elem/timestamp-missing", true, fieldOp("timestamp", "")},
 	{"elem/nonce-too-short", true, fieldOp("nonce", b64(5))},
 	{"elem/nonce-too-long", true, fieldOp("nonce", b64(70))},
+	// the limits themselves: 20..64 bytes are legal
+	{"elem/nonce-19-bytes", true, fieldOp("nonce", b64(19))},
+	{"elem/nonce-65-bytes", true, fieldOp("nonce", b64(65))},
+	{"elem/nonce-20-bytes-legal", false, fieldOp("nonce", b64(20))},
+	{"elem/nonce-64-bytes-legal", false, fieldOp("nonce", b64(64))},
+	{"elem/nonce-empty", true, fieldOp("nonce", `""`)},
 	{"elem/nonce-missing", true, fieldOp("nonce", "")},
 	{"elem/nonce-number", true, fieldOp("nonce", "7")},
 	{"elem/nonce-not-base64", true, fieldOp("nonce", `"%%%"`)},
@@ -441,6 +447,8 @@ var c07BugOps = []c07Op{
 	{"elem/title-control-chars", true, fieldOp("title", `"a\u0000b"`, 2)},
 	{"elem/status-invalid", true, fieldOp("status", `7`, 4)},
 	{"elem/status-zero", true, fieldOp("status", `0`, 4)},
+	{"elem/status-three", true, fieldOp("status", `3`, 4)}, // one past the last valid status
+	{"elem/status-negative", true, fieldOp("status", `-1`, 4)},
 	{"elem/status-string", true, fieldOp("status", `"closed"`, 4)},
 	{"elem/label-empty", true, fieldOp("added", `[""]`, 5)},
 	{"elem/label-control-chars", true, fieldOp("added", `["a\u0001"]`, 5)},
